@@ -84,9 +84,13 @@ def canonicalize_metadata(
 
     newvalues = []
     for value in values:
+        if isinstance(value, np.ndarray):
+            # str() of an array rounds its entries and elides the middle of long arrays:
+            # canonicalise the entries themselves
+            value = value.tolist()
         if isinstance(value, dict | list | tuple):
             value = canonicalize_metadata(value)
-        elif isinstance(value, int | float | str | np.ndarray) or value is None:
+        elif isinstance(value, int | float | str) or value is None:
             value = str(value)
         elif hasattr(value, "ufl_signature"):
             value = value.ufl_signature
